@@ -316,6 +316,8 @@ class Ctx:
                         local = a.asname or a.name.split(".")[0]
                         if canon and local not in MODULE_ALIASES and (a.asname or "." not in a.name):
                             m[local] = canon
+                        elif not canon and local not in MODULE_ALIASES and local not in m:
+                            m[local] = a.name if a.asname else a.name.split(".")[0]       # `import math`: math.f is the library function math.f
                 elif isinstance(n, ast.ImportFrom) and n.module and not n.level:
                     canon = self.CANON_MODULES.get(n.module)
                     if canon:
@@ -323,6 +325,12 @@ class Ctx:
                             local = a.asname or a.name
                             if local not in MODULE_ALIASES or (canon + "." + a.name) != local:
                                 m[local] = canon + "." + a.name
+                    elif n.module.split(".")[0] not in ("blackbird",) :
+                        # any other library: its functions are uninterpreted (unknown_library_call)
+                        for a in n.names:
+                            local = a.asname or a.name
+                            if local not in MODULE_ALIASES and local not in m and a.name != "*":
+                                m[local] = n.module + "." + a.name
             cache[mod] = m
         return cache[mod]
 
@@ -504,6 +512,35 @@ class Ctx:
         self.assumed.add(aid)
         return h(ex, e, args, kwargs, p)
 
+    def unknown_library_call(self, ex, e, name, args, kwargs, star, starkw, p):
+        """a library function without an assumed contract: an uninterpreted function of its arguments that may raise and MAY CHANGE every
+        mutable argument it is given (each argument that is a location holds an unknown value afterwards). Nothing is assumed about it, so
+        a real function calling it can only equal a spec that calls the same function with the same arguments."""
+        self.plain(e, star, starkw, name)
+        sym_ = "UF_" + name + lib.kwsfx(kwargs)
+        vs = [asV(a) for a in args] + [asV(v) for v in lib.kwvals(kwargs)]
+        q = ex.may_raise(p, code(sym_, *vs), app(sym_ + "_msg", *vs), getattr(e, "lineno", None))
+        if q is None:
+            return []
+        q = q.copy()
+        ex.notes.append("library function %s() has no assumed contract: uninterpreted, may change its arguments (line %s)" % (name, getattr(e, "lineno", "?")))
+        self.assumed.add("A-unknown-library: %s is a deterministic function of its arguments (and of nothing else)" % name)
+        nodes = list(getattr(e, "args", [])) + [k.value for k in getattr(e, "keywords", [])]
+        for i, nd in enumerate(nodes):
+            if isinstance(nd, ast.Starred):
+                nd = nd.value
+            if isinstance(nd, (ast.Name, ast.Attribute, ast.Subscript)):
+                try:
+                    l = ex.loc(nd, q)
+                except Unsupported:
+                    l = None
+                if l is not None:
+                    cur = l.get(q)
+                    if cur is not None and not isinstance(cur, (PyC, ClassRef, Closure)) and not (z3.is_expr(cur) and (z3.is_bool(cur) or z3.is_int(cur))):
+                        l.set(q, app("%s!arg%d" % (sym_, i), *vs))
+                        ex.note_write(l.key)
+        return [(app(sym_, *vs), q)]
+
     def dispatch(self, ex, e, f, args, kwargs, starkw, p):
         star = kwargs.get("__star__")             # PyC(positions in args of starred sequences of unknown length) or None
         kwargs = {k: v for k, v in kwargs.items() if k != "__star__"}
@@ -523,6 +560,8 @@ class Ctx:
                 return self.lib_call(ex, e, n, args, kwargs, star, starkw, p)
             if ex.side != "spec" and self.import_aliases().get(n) in lib.FUNCS:
                 return self.lib_call(ex, e, self.import_aliases()[n], args, kwargs, star, starkw, p)      # `from antlr4 import InputStream`
+            if ex.side != "spec" and n in self.import_aliases() and "." in self.import_aliases()[n]:
+                return self.unknown_library_call(ex, e, self.import_aliases()[n], args, kwargs, star, starkw, p)
             if ex.side != "real" and n.isupper() or (ex.side != "real" and re.fullmatch(r"[A-Z][A-Z0-9_]*", n)):
                 self.plain(e, star, starkw, n)
                 return self.spec_primitive(ex, e, n, args, kwargs, p)
@@ -542,7 +581,7 @@ class Ctx:
                     return self.lib_call(ex, e, name, args, kwargs, star, starkw, p)
                 if name in EXC_CODE:
                     return [(self.exc_value(e, name, args, kwargs, star, starkw), p)]
-                raise Unsupported("library function %s has no assumed contract" % name, e)
+                return self.unknown_library_call(ex, e, name, args, kwargs, star, starkw, p)
             mname = f.attr
             # method of self under contract
             if isinstance(f.value, ast.Name) and f.value.id == "self" and mname in self.contracts and self.contracts[mname].is_method:
